@@ -19,7 +19,7 @@ RULE = ('random queries over the C04/C05 domains with every combination of from_
         'wiring is visible.  Judged: status 200; JSON equal (as floats, exactly) to the library call on the same arguments with '
         'the stated HP conversions; arguments observed at the library boundary and converter call counts name the mechanism of a wrong answer (argument-wiring, angle-type-dispatch); HP outputs denote '
         'the decimal results (1e-8"); index route lists /, /vincinv, /vincdir.  distinct = endpoint x from x to x sign pattern x '
-        'distance decade')
+        'distance decade A share of the queries gives east longitudes in 0..360 and bearings below 0 or above 360.')
 ASSUMPTIONS = ['Flask/Werkzeug test client is faithful to a real HTTP GET', 'the library functions themselves are judged by C04/C05/C08']
 N = {'quick': 150, 'thorough': 4000}
 SHARDS = {'quick': 16, 'thorough': 16}
